@@ -218,7 +218,11 @@ class PersistHarness(_Base):
             for w in self.prefix:
                 ocf.rank_world(world_str(w, self.N))
             before = {k: (v if not hasattr(v, "e") else "sym") for k, v in ocf.ranks.items()}
-            attrs_before = {k: id(v) for k, v in ocf.__dict__.items()}
+            # solver attributes must be restored to the very same objects; for the rest the
+            # attribute set must be unchanged (values are compared through ranks / verdicts below)
+            def snap(o):
+                return {k: (id(v) if k in ("_optimizer", "_csp") else True) for k, v in o.__dict__.items()}
+            attrs_before = snap(ocf)
             ocf.save_meta("note", {"k": [1, 2, {"x": None}], "t": "text"})
             save_err = None
             try:
@@ -228,7 +232,7 @@ class PersistHarness(_Base):
                     raise
                 save_err = type(e).__name__
             fs.may_fail = False          # faults are injected into the save under test only
-            attrs_after = {k: id(v) for k, v in ocf.__dict__.items()}
+            attrs_after = snap(ocf)
             after = {k: (v if not hasattr(v, "e") else "sym") for k, v in ocf.ranks.items()}
             intact = attrs_before == attrs_after and before == after
             out = dict(save_err=save_err, intact=intact, failed=list(fs.failed))
